@@ -201,7 +201,7 @@ def cholesky_part(ctx, sym, traces):
                 ctx.violation("cholesky/nonpd_not_raised/%s" % kind,
                               "Cholesky(upper=%s, %s) returned %s for the symmetric matrix %s which is not positive "
                               "definite (SolversGen: Raise)" % (upper, dtype, ev.get("got"), r["A"]),
-                              {"spec": spec, "via": "table"})
+                              {"spec": spec, "class": kind, "via": "table"})
             if n <= 2 or i in pick:
                 traces.append({"cfg": spec, "ev": [ev], "class": kind})
         # ---- rounding ties: recorded, never judged
@@ -402,19 +402,41 @@ def big_spd(rng, n, emax):
     return [[Mi[i][j] * (1 << (e[i] + e[j])) for j in range(n)] for i in range(n)]
 
 
+BIG = 1 << 200        # "infinite" error (nan / inf in the result)
+
+
+def elog(err):
+    """ceil(log2(err)) for an exact integer error measure (0 for err <= 1)."""
+    return 0 if err <= 1 else (err - 1).bit_length()
+
+
 def measure_ferr(xs, xstar, eps):
+    """|x - x*|_inf / (eps |x*|_inf), exact, rounded up (not capped: it is logged as ceil(log2))."""
     xf = [fr_of(v) for v in xs]
     if any(v is None for v in xf):
-        return CAP
+        return BIG
     scale = max(abs(v) for v in xstar) or Fr(1)
-    return min(CAP, ceil_fr(max(abs(a - c) for a, c in zip(xf, xstar)) / (eps * scale)))
+    return ceil_fr(max(abs(a - c) for a, c in zip(xf, xstar)) / (eps * scale))
+
+
+def measure_bres(A, b, xs, eps):
+    """Backward residual |b - A x|_inf / (eps (|A|_inf |x|_inf + |b|_inf))."""
+    xf = [fr_of(v) for v in xs]
+    if any(v is None for v in xf):
+        return BIG
+    res = [c - a for a, c in zip(matvec(A, xf), b)]
+    na = max(sum(abs(v) for v in row) for row in A)
+    den = eps * (na * max(abs(v) for v in xf) + max(abs(v) for v in b))
+    if den == 0:
+        return 0 if all(v == 0 for v in res) else BIG
+    return ceil_fr(max(abs(v) for v in res) / den)
 
 
 def measure_nres(A, b, xs, eps):
     """|A'(A x - b)|_inf / (eps |A'|_inf (|b|_inf + |A|_inf |x|_inf))."""
     xf = [fr_of(v) for v in xs]
     if any(v is None for v in xf):
-        return CAP
+        return BIG
     At = transpose(A)
     res = [a - c for a, c in zip(matvec(A, xf), b)]
     g = matvec(At, res)
@@ -422,8 +444,8 @@ def measure_nres(A, b, xs, eps):
     nat = max(sum(abs(v) for v in row) for row in At)
     den = eps * nat * (max(abs(v) for v in b) + na * max(abs(v) for v in xf))
     if den == 0:
-        return 0 if all(v == 0 for v in g) else CAP
-    return min(CAP, ceil_fr(max(abs(v) for v in g) / den))
+        return 0 if all(v == 0 for v in g) else BIG
+    return ceil_fr(max(abs(v) for v in g) / den)
 
 
 def klog2(torch, A64, rank=None):
@@ -445,7 +467,7 @@ def ev_big(spec):
     for s in batch:
         nb *= s
     ev = {"act": "big", "solver": solver, "kind": kind, "n": n, "m": spec.get("m", n), "expect": "value",
-          "measure": "ferr", "err": 0, "amp": 0, "bzero": False, "zero": False, "rel_e9": 0, "tol_e9": 0}
+          "measure": "ferr", "err": 0, "elog": 0, "amp": 0, "bzero": False, "zero": False, "rel_e9": 0, "tol_e9": 0}
     if solver == "cg":
         emax = spec["emax"]
         while True:
@@ -501,8 +523,13 @@ def ev_big(spec):
         if kind == "indefinite":
             return ev
         xs = x.reshape(nb, n).tolist()
-        ev["amp"] = max(klog2(torch, torch.tensor(A, dtype=torch.float64)) for A in mats)
-        ev["err"] = max(measure_ferr(xs[k], stars[k], eps) for k in range(nb))
+        if solver == "pinv":    # explicit pseudo-inverse: forward error up to cond * eps
+            err = max(measure_ferr(xs[k], stars[k], eps) for k in range(nb))
+            ev.update({"measure": "ferr", "amp": max(klog2(torch, torch.tensor(A, dtype=torch.float64)) for A in mats)})
+        else:                   # factorisation-based solvers are backward stable whatever the condition number
+            err = max(measure_bres(mats[k], rhs[k], xs[k], eps) for k in range(nb))
+            ev.update({"measure": "bres", "amp": 0})
+        ev.update({"err": min(CAP, err), "elog": elog(err)})
         return ev
     # least squares: tall / wide / rank-deficient integer matrices
     m = spec["m"]
@@ -556,11 +583,12 @@ def ev_big(spec):
     kl = max(klog2(torch, torch.tensor(A, dtype=torch.float64), r) for A, r in zip(mats, ranks))
     if solver == "pinv" or (solver == "lstsq" and kind == "tall"):
         # forward error of a least-squares solution is amplified by up to cond^2
-        ev.update({"measure": "ferr", "amp": min(30, 2 * kl),
-                   "err": max(measure_ferr(xs[k], stars[k], eps) for k in range(nb))})
+        err = max(measure_ferr(xs[k], stars[k], eps) for k in range(nb))
+        ev.update({"measure": "ferr", "amp": 2 * kl})
     else:
-        ev.update({"measure": "nres", "amp": 0,
-                   "err": max(measure_nres(mats[k], rhs[k], xs[k], eps) for k in range(nb))})
+        err = max(measure_nres(mats[k], rhs[k], xs[k], eps) for k in range(nb))
+        ev.update({"measure": "nres", "amp": 0})
+    ev.update({"err": min(CAP, err), "elog": elog(err)})
     return ev
 
 
@@ -576,6 +604,8 @@ def big_part(ctx, traces):
                 emax = rng.choice([0, 4, 8, 12])
                 specs.append({"fam": "big", "solver": solver, "kind": "spd", "n": n, "dtype": "float64", "emax": emax,
                               "batch": rng.choice(batches), "upper": rng.random() < 0.5})
+            specs.append({"fam": "big", "solver": solver, "kind": "spd", "n": n, "dtype": "float64", "emax": 12,
+                          "batch": [1]})          # condition number up to ~1e8
             specs.append({"fam": "big", "solver": solver, "kind": "spd", "n": n, "dtype": "float32", "emax": rng.choice([0, 2]),
                           "batch": rng.choice(batches)})
         for rep in range(2 if q else 4):
@@ -809,7 +839,7 @@ def judge(ctx, traces, verdicts):
         short = {k: e[k] for k in e if k not in ("xs",)}
         ctx.violation(key_of(tr, clause), "real call rejected by the trace spec, clause %s: cfg=%s event=%s"
                       % (clause, json.dumps({k: c[k] for k in c if k not in ("xs", "row", "rows")})[:300], json.dumps(short)[:500]),
-                      {"spec": c, "verdict": v, "event": e})
+                      {"spec": c, "class": tr.get("class"), "verdict": v, "event": e})
     ctx.extra["events_recorded_not_judged"] = unjudged
 
 
